@@ -9,12 +9,14 @@ From Coquelicot Require Import Coquelicot.
 From PyLib Require Import PyVal PyBuiltins Ideal.
 From Gen Require Import M_base M_Angle M_Interpolation.
 From Proofs.C12 Require C12_defs C12_main.
-From Proofs.C12 Require Import C12_tac C12_nd C12_dup3 C12_ctor3 C12_ctor4 C12_ideal C12_root.
+From Proofs.C12 Require Import C12_tac C12_nd C12_dup3 C12_ctor3 C12_ctor4 C12_ideal C12_root C12_witness.
 Import ListNotations.
 Open Scope R_scope.
 
-(* [ideal] a three-point table (abscissae at least tol apart, in ascending order; any ordinates and
-   any coefficient table): at each tabulated abscissa __call__ returns the tabulated ordinate *)
+(* [ideal, n = 3 ONLY; the property speaks of 2..9 points] a three-point table (abscissae at least tol apart,
+   in ascending order; any ordinates and any coefficient table): at each tabulated abscissa __call__ returns
+   the tabulated ordinate.  This is the |x - xi| < tol shortcut of __call__, not a fact about the polynomial;
+   that the POLYNOMIAL passes through the points is C12_newton_form + C12_polynomial (Lagrange form at xi). *)
 Theorem C12_through_points : forall x1 x2 x3 y1 y2 y3 t0 t1 t2, x1 + tol0 <= x2 -> x2 + tol0 <= x3 ->
   let T := obj [x1; x2; x3] [y1; y2; y3] [t0; t1; t2] in
   Interpolation___call__ Rops T (VFloat x1) = VFloat y1 /\
@@ -22,7 +24,7 @@ Theorem C12_through_points : forall x1 x2 x3 y1 y2 y3 t0 t1 t2, x1 + tol0 <= x2 
   Interpolation___call__ Rops T (VFloat x3) = VFloat y3.
 Proof. intros. repeat split; [apply call_node1 | apply call_node2 | apply call_node3]; assumption. Qed.
 
-(* [ideal] between the nodes __call__ is the Horner evaluation of the Newton form over the stored table ... *)
+(* [ideal, n = 3 only] between the nodes __call__ is the Horner evaluation of the Newton form over the stored table ... *)
 Theorem C12_newton_form : forall x1 x2 x3 y1 y2 y3 t0 t1 t2 x, x1 + tol0 <= x2 -> x2 + tol0 <= x3 ->
   x1 <= x <= x3 -> tol0 <= Rabs (x - x1) -> tol0 <= Rabs (x - x2) -> tol0 <= Rabs (x - x3) ->
   Interpolation___call__ Rops (obj [x1; x2; x3] [y1; y2; y3] [t0; t1; t2]) (VFloat x)
@@ -34,7 +36,7 @@ Theorem C12_polynomial : forall x1 x2 x3 y1 y2 y3 x, x1 <> x2 -> x2 <> x3 -> x1 
   y1 + (x - x1) * (dd2 x1 x2 y1 y2 + (x - x2) * dd3 x1 x2 x3 y1 y2 y3) = lagrange3 x1 x2 x3 y1 y2 y3 x.
 Proof. exact newton3_is_lagrange. Qed.
 
-(* [ideal] derivative() returns t1 + ((x-x2)+(x-x1)) t2, which for the divided differences is the
+(* [ideal, n = 3 only] derivative() returns t1 + ((x-x2)+(x-x1)) t2, which for the divided differences is the
    derivative of that parabola *)
 Theorem C12_derivative : forall x1 x2 x3 y1 y2 y3 x, x1 + tol0 <= x2 -> x2 + tol0 <= x3 -> x1 <= x <= x3 ->
   Interpolation_derivative Rops
@@ -45,7 +47,7 @@ Theorem C12_derivative : forall x1 x2 x3 y1 y2 y3 x, x1 + tol0 <= x2 -> x2 + tol
                 (dd2 x1 x2 y1 y2 + ((x - x2) + (x - x1)) * dd3 x1 x2 x3 y1 y2 y3)).
 Proof. intros. split; [apply deriv_inside; assumption | apply newton3_derivative]. Qed.
 
-(* [ideal] abscissae outside the table are refused with ValueError (by __call__ beyond the tolerance,
+(* [ideal, n = 3 only] abscissae outside the table are refused with ValueError (by __call__ beyond the tolerance,
    by derivative immediately) *)
 Theorem C12_refused : forall x1 x2 x3 y1 y2 y3 t0 t1 t2 x, x1 + tol0 <= x2 -> x2 + tol0 <= x3 ->
   let T := obj [x1; x2; x3] [y1; y2; y3] [t0; t1; t2] in
@@ -70,7 +72,7 @@ Proof.
   intros. repeat split; [apply top4_0 | apply top4_1 | apply top4_2 | apply top4_3]; assumption.
 Qed.
 
-(* [ideal] the constructor on symbolic tables: for x1 < x2 < x3 (< x4) at least tol apart, EVERY order of the
+(* [ideal, n = 3 and n = 4 only] the constructor on symbolic tables: for x1 < x2 < x3 (< x4) at least tol apart, EVERY order of the
    points and each input form (two lists, two tuples, interleaved scalars, and the copy constructor) yields
    the same object: abscissae sorted, ordinates following, divided differences as coefficient table *)
 Theorem C12_constructor_3 : forall x1 x2 x3 y1 y2 y3, x1 + tol0 <= x2 -> x2 + tol0 <= x3 ->
@@ -209,44 +211,55 @@ Proof.
     (ctor4_copy x1 x2 x3 x4 y1 y2 y3 y4))))))))))))))))))))))))).
 Qed.
 
-(* [ideal] duplicated abscissae (any pair closer than tol) are refused with ValueError (three points, two-list form) *)
+(* [ideal, n = 3 only, two-list form only] duplicated abscissae (any pair closer than tol) are refused with ValueError (three points, two-list form) *)
 Theorem C12_duplicates : forall p1 p2 p3 q1 q2 q3,
   Rabs (p1 - p2) < tol0 \/ Rabs (p1 - p3) < tol0 \/ Rabs (p2 - p3) < tol0 ->
   Interpolation___init__ Rops blank (VTuple [flist [p1; p2; p3]; flist [q1; q2; q3]]) = VErr ValueError.
 Proof. exact dup3. Qed.
 
 (* [ideal] root(): the generated while loop (extracted from the generated text as root_loop) keeps the
-   bracket invariant; by induction on its fuel, for ANY object whose __call__/derivative return floats
-   (I x, D x) or raise: from a state with a <= xl <= x <= xh <= b, y = I x and a sign change between
-   yl and yh, whatever the loop returns is an error or a float r with a <= r <= b and |I r| <= tol. *)
+   bracket invariant; by induction on its fuel, for ANY object whose __call__/derivative return a float
+   (I x, D x) or raise ValueError (assumption on the callees; satisfiable: C12_root_witness below).
+   [good tol I a b v] says: v is a float r with a <= r <= b and |I r| <= tol, OR v is VErr ValueError;
+   every other outcome (OutOfFuel, TypeError, Unsupported, non-float values) is excluded.
+   PARTIAL CORRECTNESS as far as finding a root is concerned: ValueError ("too many iterations" /
+   "no sign change") satisfies it; that a float is returned for every sign change is NOT proved.
+   The model artefact OutOfFuel is impossible as long as max_iter - num_iter < fuel (every pass
+   increments num_iter and the loop raises ValueError at max_iter). *)
 Theorem C12_root_step : forall (fx fy ft : val R) (tol : R) (I D : R -> R),
   let self := VObj cInterpolation [fx; fy; ft; VFloat tol] in
   0 <= tol ->
   (forall x, Interpolation___call__ Rops self (VFloat x) = VFloat (I x)
-             \/ exists e, Interpolation___call__ Rops self (VFloat x) = VErr e) ->
+             \/ Interpolation___call__ Rops self (VFloat x) = VErr ValueError) ->
   (forall x, Interpolation_derivative Rops self (VFloat x) = VFloat (D x)
-             \/ exists e, Interpolation_derivative Rops self (VFloat x) = VErr e) ->
+             \/ Interpolation_derivative Rops self (VFloat x) = VErr ValueError) ->
   forall a b mi fuel ni x xh xl y yh yl yp,
+  (Z.max 0 (mi - ni) < Z.of_nat fuel)%Z ->
   a <= xl -> xl <= xh -> xh <= b -> xl <= x <= xh -> y = I x -> (tol < Rabs y -> yl * yh < 0) ->
   good tol I a b (root_loop self (VInt mi) fuel (VInt ni) (VFloat x) (VFloat xh) (VFloat xl)
                             (VFloat y) (VFloat yh) (VFloat yl) yp).
 Proof. intros. apply loop_good with (D := D); assumption. Qed.
 
-(* [ideal] the whole method: whenever root(xl, xh) returns a float it lies inside the interval asked for
-   (limits put in order and clamped to the table) and the interpolant is <= tol there — limits in the
-   table, reversed, out of the table, and the default (0, 0) *)
+(* [ideal] the whole method, for max_iter in 0..4999 (the model's loop fuel is 5000; the default max_iter is
+   1000): root(xl, xh) returns a float inside the interval asked for (limits put in order and clamped to the
+   table) at which the interpolant is <= tol, or raises ValueError - nothing else.  Entry paths proved:
+   limits in the table (xl <> 0, and xl = 0 with xh <> 0), reversed, reversed and both outside, lower limit
+   below the table, and the default (0, 0).  Not separate theorems: "only the upper limit above the table"
+   and the remaining combinations with a zero limit.  Same partial-correctness caveat as above. *)
 Theorem C12_root_sound : forall (fx fy ft : val R) (tol : R) (I D : R -> R) (xmin xmax : R),
   let self := VObj cInterpolation [fx; fy; ft; VFloat tol] in
   0 < tol ->
   (forall x, Interpolation___call__ Rops self (VFloat x) = VFloat (I x)
-             \/ exists e, Interpolation___call__ Rops self (VFloat x) = VErr e) ->
+             \/ Interpolation___call__ Rops self (VFloat x) = VErr ValueError) ->
   (forall x, Interpolation_derivative Rops self (VFloat x) = VFloat (D x)
-             \/ exists e, Interpolation_derivative Rops self (VFloat x) = VErr e) ->
+             \/ Interpolation_derivative Rops self (VFloat x) = VErr ValueError) ->
   py_getitem Rops (get_field cInterpolation 0 self) (VInt 0) = VFloat xmin ->
   py_getitem Rops (get_field cInterpolation 0 self) (VInt (-1)) = VFloat xmax ->
-  forall xl xh mi,
+  forall xl xh mi, (0 <= mi < 5000)%Z ->
   (xl <> 0 -> xl + tol <= xh -> xmin <= xl -> xh <= xmax ->
      good tol I xl xh (Interpolation_root Rops self (VFloat xl) (VFloat xh) (VInt mi))) /\
+  (xh <> 0 -> 0 + tol <= xh -> xmin <= 0 -> xh <= xmax ->
+     good tol I 0 xh (Interpolation_root Rops self (VFloat 0) (VFloat xh) (VInt mi))) /\
   (xl <> 0 -> xh + tol <= xl -> xmin <= xh -> xl <= xmax ->
      good tol I xh xl (Interpolation_root Rops self (VFloat xl) (VFloat xh) (VInt mi))) /\
   (xl <> 0 -> xh < xmin -> xmax < xl -> xmin + tol <= xmax ->
@@ -256,14 +269,32 @@ Theorem C12_root_sound : forall (fx fy ft : val R) (tol : R) (I D : R -> R) (xmi
   (xmin + tol <= xmax ->
      good tol I xmin xmax (Interpolation_root Rops self (VFloat 0) (VFloat 0) (VInt mi))).
 Proof.
-  intros fx fy ft tol I D xmin xmax self Htp Hc Hd H0 H1 xl xh mi.
+  intros fx fy ft tol I D xmin xmax self Htp Hc Hd H0 H1 xl xh mi Hmi.
   assert (Ht : 0 <= tol) by (apply Rlt_le; exact Htp).
   repeat split; intros.
   - apply root_in_table with (D := D) (xmin := xmin) (xmax := xmax); assumption.
+  - apply root_in_table_zero with (D := D) (xmin := xmin) (xmax := xmax); assumption.
   - apply root_reversed with (D := D) (xmin := xmin) (xmax := xmax); assumption.
   - apply root_reversed_outside with (D := D); assumption.
   - apply root_clamped_low with (D := D) (xmax := xmax); assumption.
   - apply root_default with (D := D); assumption.
+Qed.
+
+(* [ideal] non-vacuity of the callee assumptions: for the symbolic three-point table (abscissae at least
+   tol apart, ANY ordinates and coefficient table) __call__ and derivative ARE total in that sense
+   (C12_ideal.call_total / deriv_total: I3 is the node ordinate within tol of a node, else the Newton form),
+   so the root statements hold for it with no assumption about callees *)
+Theorem C12_root_witness : forall x1 x2 x3 y1 y2 y3 t0 t1 t2, x1 + tol0 <= x2 -> x2 + tol0 <= x3 ->
+  let T := obj [x1; x2; x3] [y1; y2; y3] [t0; t1; t2] in
+  let I := I3 x1 x2 x3 y1 y2 y3 t0 t1 t2 in
+  forall mi, (0 <= mi < 5000)%Z ->
+  good tol0 I x1 x3 (Interpolation_root Rops T (VFloat 0) (VFloat 0) (VInt mi)) /\
+  (forall xl xh, xl <> 0 -> xl + tol0 <= xh -> x1 <= xl -> xh <= x3 ->
+     good tol0 I xl xh (Interpolation_root Rops T (VFloat xl) (VFloat xh) (VInt mi))).
+Proof.
+  intros x1 x2 x3 y1 y2 y3 t0 t1 t2 H12 H23 T I mi Hmi. split.
+  - exact (root3_default x1 x2 x3 y1 y2 y3 t0 t1 t2 H12 H23 mi Hmi).
+  - intros xl xh. exact (root3_in_table x1 x2 x3 y1 y2 y3 t0 t1 t2 H12 H23 xl xh mi Hmi).
 Qed.
 
 (* [binary64] kernel evaluation of the generated root()/minmax() on the explicit grid C12_defs.grid
@@ -274,6 +305,11 @@ Qed.
 Theorem C12_grid_b64 : forall t xl xh, In t C12_defs.grid -> In xl (C12_defs.limits t) -> In xh (C12_defs.limits t) ->
   C12_defs.chk_pair t xl xh = true.
 Proof. exact C12_main.grid_b64. Qed.
+
+(* chk_pair is trivially true for xl = xh (equal limits are not part of the claim); non-vacuity: on 756 of
+   the ordered limit pairs of the grid root() returns a float (which chk_pair then judges) *)
+Theorem C12_grid_found : fold_right Nat.add 0%nat (map C12_defs.count_found C12_defs.grid) = 756%nat.
+Proof. exact C12_main.grid_found. Qed.
 
 Redirect "C12_through_points.assumptions" Print Assumptions C12_through_points.
 Redirect "C12_newton_form.assumptions" Print Assumptions C12_newton_form.
@@ -286,4 +322,6 @@ Redirect "C12_constructor_4.assumptions" Print Assumptions C12_constructor_4.
 Redirect "C12_duplicates.assumptions" Print Assumptions C12_duplicates.
 Redirect "C12_root_step.assumptions" Print Assumptions C12_root_step.
 Redirect "C12_root_sound.assumptions" Print Assumptions C12_root_sound.
+Redirect "C12_root_witness.assumptions" Print Assumptions C12_root_witness.
 Redirect "C12_grid_b64.assumptions" Print Assumptions C12_grid_b64.
+Redirect "C12_grid_found.assumptions" Print Assumptions C12_grid_found.
